@@ -30,6 +30,9 @@ const char *type_name(int t) {
 const int NOBJ = 3;
 
 struct World {
+    size_t allow = 0;       // unowned blocks tolerated (what the library demonstrably keeps for itself)
+    size_t max_unowned = 0; // most unowned blocks seen at a check point of this history
+    size_t leak_total = 0;  // at a suspected leak: unowned blocks of this run + blocks kept from earlier runs
     varintBitmap *obj[NOBJ] = {nullptr, nullptr, nullptr};
     std::unique_ptr<Set> model[NOBJ];
     World() {
@@ -683,20 +686,30 @@ class BitmapHist : public Engine {
                 }
             }
         }
-        if (alloc::live_count() != expect) {
-            f.cls = "leak";
-            std::ostringstream o;
-            o << alloc::live_count() << " live blocks, " << expect << " owned by live objects; unowned:";
-            for (auto &kv : alloc::live()) {
-                bool owned = false;
-                for (int i = 0; i < NOBJ; i++) {
-                    varintBitmap *vb = w.obj[i];
-                    if (!vb) continue;
-                    if (kv.first == vb || kv.first == (void *)vb->container.array.values) owned = true;
-                }
-                if (!owned) o << " [" << kv.second.size << "B from " << kv.second.site << "]";
+        // blocks of this run that no live object owns.  A library may keep a bounded number of
+        // blocks for itself (a buffer pool): tolerated up to what it kept before this run plus what
+        // the fault-free execution of the same history showed (w.allow; 0 for a library without caches)
+        size_t unowned = 0;
+        std::ostringstream o;
+        for (auto &kv : alloc::live()) {
+            bool owned = false;
+            for (int i = 0; i < NOBJ; i++) {
+                varintBitmap *vb = w.obj[i];
+                if (!vb) continue;
+                if (kv.first == vb || kv.first == (void *)vb->container.array.values) owned = true;
             }
-            f.detail = o.str();
+            if (!owned) {
+                unowned++;
+                o << " [" << kv.second.size << "B from " << kv.second.site << "]";
+            }
+        }
+        (void)expect;
+        if (unowned > w.max_unowned) w.max_unowned = unowned;
+        if (unowned > w.allow) {
+            w.leak_total = unowned + alloc::kept_count();
+            f.cls = "leak";
+            f.detail = std::to_string(alloc::live_count()) + " live blocks, " + std::to_string(unowned) +
+                       " of them owned by no live object (" + std::to_string(w.allow) + " tolerated):" + o.str();
             return false;
         }
         return true;
@@ -728,6 +741,7 @@ class BitmapHist : public Engine {
         long fault_op = -1;       // index of the op whose "fail" is overridden
         uint64_t fault_k = 0;     // with this k
         bool honour_faults = true; // apply explicit fail=k attributes
+        size_t allow_unowned = 0;  // blocks the library may keep for itself (from the fault-free execution)
     };
     struct ExecRes {
         Fail fail;              // empty cls = no violation
@@ -736,6 +750,8 @@ class BitmapHist : public Engine {
         bool fault_fired = false;
         std::string fault_site;
         bool transitions = false, reloaded = false;
+        size_t max_unowned = 0; // most blocks owned by no object at any check point (and at teardown)
+        size_t leak_total = 0;  // see World
         Fail partial;           // first unreported-partial (C18 item 5), reported if nothing else fails
     };
 
@@ -756,11 +772,26 @@ class BitmapHist : public Engine {
         return tn(op.u("obj"));
     }
 
+    // A block that no object owns is a leak only if it accumulates: the same history is executed
+    // again, and the suspicion stands if it arises again with more blocks outstanding in total
+    // (this run's unowned ones plus those kept from earlier runs).  A library-side buffer pool
+    // fills once and then stays the same size.
+    ExecRes run_history_confirmed(const Plan &plan, const ExecCfg &cfg) {
+        ExecRes r = run_history(plan, cfg);
+        if (r.fail.cls != "leak") return r;
+        ExecRes r2 = run_history(plan, cfg);
+        if (r2.fail.cls == "leak" && r2.leak_total > r.leak_total) return r2;
+        stat("leak_suspicion_not_confirmed_by_repetition");
+        if (r2.fail.cls == "leak") r2.fail = Fail();
+        return r2;
+    }
+
     // Executes one history from scratch.  Returns the first violation.
     ExecRes run_history(const Plan &plan, const ExecCfg &cfg) {
         ExecRes res;
         World w;
         alloc::reset_run();
+        w.allow = cfg.allow_unowned;
         alloc::set_fill(alloc::Fill::Garbage, plan.seed ^ 0xb17b17);
         for (int i = 0; i < NOBJ; i++) {
             w.obj[i] = varintBitmapCreate();
@@ -1089,11 +1120,17 @@ class BitmapHist : public Engine {
             }
             g_log.u64(varintBitmapCardinality(vb));
         }
-        if (res.fail.cls.empty()) free_world(w); // a violating object is abandoned, not walked
-        if (faults_ && res.fail.cls.empty() && alloc::live_count() != 0) {
+        // a violating object is abandoned, not walked - except after a suspected leak, where the objects
+        // are sound and only what they do not own must stay behind (the repetition test counts it)
+        if (res.fail.cls.empty() || res.fail.cls == "leak") free_world(w);
+        res.max_unowned = std::max(w.max_unowned, res.fail.cls.empty() ? alloc::live_count() : (size_t)0);
+        res.leak_total = w.leak_total;
+        if (faults_ && res.fail.cls.empty() && alloc::live_count() > w.allow) {
+            res.leak_total = alloc::live_count() + alloc::kept_count();
             res.fail.cls = "leak";
             res.fail.key = "teardown";
-            res.fail.detail = std::to_string(alloc::live_count()) + " blocks live after all objects were freed";
+            res.fail.detail = std::to_string(alloc::live_count()) + " blocks live after all objects were freed (" +
+                              std::to_string(w.allow) + " tolerated)";
         }
         alloc::reset_run();
         if (res.fail.cls.empty() && !res.partial.cls.empty()) res.fail = res.partial;
@@ -1121,9 +1158,18 @@ class BitmapHist : public Engine {
         for (size_t i = 0; i < plan.ops.size(); i++)
             if (plan.ops[i].is_all("fail")) target = (long)i;
         if (target < 0) {
-            // explicit faults only: one execution
+            // explicit faults only: one execution (after a fault-free one that shows what the
+            // library keeps for itself)
             ExecCfg cfg;
-            ExecRes r = run_history(plan, cfg);
+            {
+                ExecCfg b;
+                b.honour_faults = false;
+                b.allow_unowned = 1000;
+                ExecRes rb = run_history(plan, b);
+                cfg.allow_unowned = rb.max_unowned;
+                g_log.reset();
+            }
+            ExecRes r = run_history_confirmed(plan, cfg);
             out.cases = 1;
             out.hash = g_log.h;
             if (!r.fail.cls.empty()) {
@@ -1135,10 +1181,14 @@ class BitmapHist : public Engine {
             return out;
         }
         // baseline: fault-free, fully checked
+        size_t baseline_unowned = 0;
         {
             ExecCfg cfg;
             cfg.honour_faults = false;
+            cfg.allow_unowned = 1000; // the fault-free execution defines what the library keeps for itself
             ExecRes r = run_history(plan, cfg);
+            baseline_unowned = r.max_unowned;
+            if (baseline_unowned) stat("baseline_keeps_blocks_for_itself");
             out.cases++;
             if (!r.fail.cls.empty()) {
                 stat("baseline-invalid");
@@ -1154,7 +1204,8 @@ class BitmapHist : public Engine {
             cfg.check = false; // the prefix was checked by the baseline
             cfg.fault_op = target;
             cfg.fault_k = k;
-            ExecRes r = run_history(plan, cfg);
+            cfg.allow_unowned = baseline_unowned;
+            ExecRes r = run_history_confirmed(plan, cfg);
             out.cases++;
             if (!r.fail.cls.empty() && r.fail.cls != "skip") {
                 bool partial = r.fail.cls == "unreported-partial";
